@@ -22,7 +22,9 @@ Z1 == << M("m1.txt", 33188, <<2017, 5, 31, 10, 20, 30>>, "stored", Run(97, 3), F
          M("ünï.dat", 33261, <<2017, 12, 31, 0, 0, 0>>, "stored", <<>>, FALSE),
          M("dir/deep/x.log", 33188, <<2015, 6, 15, 12, 0, 0>>, "deflated", Run(10, 77), FALSE) >>
 Z2 == << M("only.class", 33188, <<2016, 11, 30, 8, 8, 8>>, "deflated", Run(65, 512), FALSE) >>
-Z3 == << M("w1", 33060, <<2017, 3, 31, 1, 2, 4>>, "stored", Run(66, 9), FALSE), M("w2", 33206, <<2017, 4, 30, 1, 2, 4>>, "stored", Run(66, 10), FALSE) >>
+Z3 == << M("w1", 33060, <<2017, 3, 31, 1, 2, 4>>, "stored", Run(66, 9), FALSE), M("w2", 33206, <<2017, 4, 30, 1, 2, 4>>, "stored", Run(66, 10), FALSE),
+         \* (members with exactly one of the set-id bits: 02755 and 04755)
+         M("sg", 34285, <<2017, 4, 30, 1, 2, 6>>, "stored", Run(66, 3), FALSE), M("su", 35309, <<2017, 4, 30, 1, 2, 8>>, "stored", Run(66, 4), FALSE) >>
 NoZip == <<>>
 F(i, p, nm, cont, zip, isz) == [id |-> i, parent |-> p, kind |-> "file", name |-> nm, content |-> cont, zip |-> zip, iszip |-> isz, truncate |-> -1, flip |-> 0, hasflip |-> FALSE]
 D(i, p, nm) == [id |-> i, parent |-> p, kind |-> "dir", name |-> nm, content |-> <<>>, zip |-> NoZip, iszip |-> FALSE, truncate |-> -1, flip |-> 0, hasflip |-> FALSE]
@@ -41,10 +43,12 @@ WCorrupt(t, fl, hf) == [nodes |-> << F(1, 0, "a.txt", Run(120, 5), NoZip, FALSE)
 Clocks == <<1493640000, 1490918400, 1462017600>>      \* 2017-05-01 12:00, 2017-03-31 00:00, 2016-04-30 12:00 (UTC)
 QVariants == { [wh |-> w, ord |-> o, lim |-> k] : w \in BOOLEAN, o \in {"none", "size-", "size+"}, k \in {0, 1, 2, 3, 5, 8, 13, 17, 30} }
 
-Init == kind = "" /\ variant = [wh |-> FALSE, ord |-> "none", lim |-> 0, t |-> -1, flip |-> 0, clock |-> 0, depth |-> 0] /\ phase = "start"
+Init == kind = "" /\ variant = [wh |-> FALSE, ord |-> "none", lim |-> 0, t |-> -1, flip |-> 0, clock |-> 0, depth |-> 0, owncfg |-> FALSE] /\ phase = "start"
 (* depth: `depth N` on the root (0 = none): the members of an archive lying exactly at level N are still listed *)
 ChooseMembers == /\ phase = "start" /\ kind' = "members"
-                 /\ \E c \in 1 .. 3, d \in 0 .. 2 : (c = 1 \/ d = 0) /\ variant' = [variant EXCEPT !.clock = Clocks[c], !.depth = d] /\ phase' = "done"
+                 \* owncfg: the complete default configuration file the program writes for a new user (every extension list present)
+                 /\ \E c \in 1 .. 3, d \in 0 .. 2, oc \in BOOLEAN : (c = 1 \/ d = 0) /\ (~oc \/ d = 0)
+                       /\ variant' = [variant EXCEPT !.clock = Clocks[c], !.depth = d, !.owncfg = oc] /\ phase' = "done"
 ChooseQuery == /\ phase = "start" /\ kind' = "query"
                /\ \E v \in QVariants : variant' = [variant EXCEPT !.wh = v.wh, !.ord = v.ord, !.lim = v.lim, !.clock = Clocks[1]]
                /\ phase' = "done"
@@ -57,18 +61,19 @@ ChooseFlip == /\ phase = "start" /\ kind' = "corrupt"
 Next == ChooseMembers \/ ChooseQuery \/ ChooseTrunc \/ ChooseFlip
 Spec == Init /\ [][Next]_vars
 
-Cols == "path, size, is_dir, mode, modified"
+Cols == "path, size, is_dir, mode, modified, suid, sgid"
 QText(arc) == "select path, size from '.'" \o (IF arc THEN " archives" ELSE "") \o (IF variant.wh THEN " where size > 4" ELSE "")
               \o (CASE variant.ord = "none" -> "" [] variant.ord = "size-" -> " order by size desc" [] variant.ord = "size+" -> " order by size")
               \o (IF variant.lim > 0 THEN " limit " \o ToString(variant.lim) ELSE "") \o " into list"
 DepthText == IF variant.depth > 0 THEN " depth " \o ToString(variant.depth) ELSE ""
 Scenario ==
   IF kind = "members" THEN
-     [prop |-> "C19", kind |-> kind, class |-> "members/clock" \o ToString(variant.clock) \o (IF variant.depth > 0 THEN "/depth" \o ToString(variant.depth) ELSE ""),
+     [prop |-> "C19", kind |-> kind, class |-> "members/clock" \o ToString(variant.clock) \o (IF variant.depth > 0 THEN "/depth" \o ToString(variant.depth) ELSE "") \o (IF variant.owncfg THEN "/own-default-config" ELSE ""),
       world |-> WArc, variant |-> variant,
-      env |-> [tz |-> "UTC", cwd |-> 0, fake_epoch |-> variant.clock],
-      runs |-> << [tag |-> "arc", ncols |-> 5, chars |-> FALSE, argv |-> << "select " \o Cols \o " from '.'" \o DepthText \o " archives into list" >>],
-                  [tag |-> "plain", ncols |-> 5, chars |-> FALSE, argv |-> << "select " \o Cols \o " from '.'" \o DepthText \o " into list" >>] >>]
+      env |-> IF variant.owncfg THEN [tz |-> "UTC", cwd |-> 0, fake_epoch |-> variant.clock, config |-> [own_default |-> TRUE]]
+              ELSE [tz |-> "UTC", cwd |-> 0, fake_epoch |-> variant.clock, config |-> [debug |-> FALSE]],
+      runs |-> << [tag |-> "arc", ncols |-> 7, chars |-> FALSE, argv |-> << "select " \o Cols \o " from '.'" \o DepthText \o " archives into list" >>],
+                  [tag |-> "plain", ncols |-> 7, chars |-> FALSE, argv |-> << "select " \o Cols \o " from '.'" \o DepthText \o " into list" >>] >>]
   ELSE IF kind = "query" THEN
      [prop |-> "C19", kind |-> kind, class |-> "query/" \o variant.ord \o (IF variant.wh THEN "/where" ELSE "") \o (IF variant.lim > 0 THEN "/limit" ELSE ""),
       world |-> WArc, variant |-> variant, env |-> [tz |-> "UTC", cwd |-> 0, fake_epoch |-> variant.clock],
